@@ -5,6 +5,7 @@ the TraceLife specification (batched: many traces per JVM)."""
 from __future__ import annotations
 
 from . import common  # noqa: F401
+from . import aging
 from .common import MachineryError, WORK
 
 import json
@@ -218,6 +219,7 @@ def validate(cap, eager, daskin, cn, traces, name, dev=None):
     return res, out
 
 
+@aging.paused
 def run(rep, worlds, num=20, depth=14, seed=0, procs=16):
     """Record and validate traces for the given worlds; returns findings [(prop, clause, what, scenario)]."""
     findings = []
